@@ -24,7 +24,7 @@ RULE = ("random nested ChangeSets over a 5-entry tree (edit/create/move/remove, 
 ASSUMPTIONS = ["single-fault model: the injected operation raises before having any effect, no second "
                "fault during rollback", "selective undo of several changes is not required to be atomic "
                "as a whole (only the plain undo()/redo() of the last change is checked)"]
-BUDGET = {"quick": (5000, 60), "thorough": (400000, 480)}
+BUDGET = {"quick": (5000, 240), "thorough": (155000, 900)}
 EXHAUSTIVE = {}
 TECHNIQUE = ("runtime fault injection through rope's pluggable FileSystemCommands and TaskHandle observers, "
              "exhaustive over fault index per generated composite; tree-snapshot + history-identity oracle")
